@@ -17,7 +17,7 @@ def reg(pid, module, **kw):
 
 
 reg('C01', 'harness.hist', design_ref='6/C01',
-    bounds={'quick': 'histories of 5 calls (all equality patterns of 5 arbitrary arguments), 3 steps with the management alphabet {call,dump,load,clear,clear(keepstats),archived(off),archived(on)}; 12 decorators x purge x {no archive, cache+dict_archive, dict_archive used directly} x {raw flat, stringmap non-flat}; two-parameter signature with 5 call spellings at 2 calls',
+    bounds={'quick': 'histories of 5 calls (all equality patterns of 5 arbitrary arguments), 3 steps with the management alphabet {call,dump,load,clear,clear(keepstats),archived(off),archived(on)}; 12 decorators x purge x {no archive, cache+dict_archive, dict_archive used directly} x {raw flat, stringmap non-flat}; two-parameter signature with 5 call spellings at 2 calls; results None/0 and failing calls (uninterpreted tag/predicate) at 3 calls; typed witness arguments 1/1.0/True/\'1\'/2 under type-distinguishing keymaps at 3 calls; scripted scenarios refill (2 calls, clear, 3 calls) and reload (2 calls, dump, clear, load, 3 calls); bulk preload of <= 2 archive entries then 3 calls; persistent backends (model FS / sqlite) at 3 calls',
             'thorough': 'histories of 6 calls, 4 steps with the management alphabet, keymaps raw/str/pyhash(modulo collisions)/pickle/md5, two-parameter signature at 3 calls'},
     outside='longer histories; file/dir/sql backends (covered with concrete keys by C03/C04 harness); python-hash collisions',
     stubs=HIST_STUBS + ['klepto.crypto str/repr/hashlib/dumps/__hash -> structural injective versions (stubs/cryptoshim.py)'],
@@ -29,17 +29,17 @@ reg('C02', 'harness.hist', design_ref='6/C02',
     stubs=HIST_STUBS + ['klepto.crypto stubs as C01'], assumptions=HIST_ASSUME, expect_labels=['C02:iff', 'C02:once'])
 reg('C05', 'harness.hist', design_ref='6/C05',
     bounds={'quick': '5 calls; preload of 0..3 archive entries + load() then 3 calls; constructor dispatch with maxsize in {None, symbolic Int >= 0} passed positionally or by keyword',
-            'thorough': '7 calls; preload 0..4 then 4 calls'},
-    outside='longer histories', stubs=HIST_STUBS, assumptions=HIST_ASSUME, expect_labels=['C05:bound'])
+            'thorough': '7 calls; preload 0..4 then 4 calls; failing calls at 5 calls; scripts refill/reload/toggle'},
+    outside='longer histories; re-entrant (recursive) calls of the decorated function', stubs=HIST_STUBS, assumptions=HIST_ASSUME, expect_labels=['C05:bound'])
 reg('C06', 'harness.hist', design_ref='6/C06',
-    bounds={'quick': '5 calls, symbolic maxsize >= 1, four policies x 2 modules x with/without dict archive; LRU compaction history maxsize=1, 13 calls (calls 2..11 assumed to repeat call 1)',
-            'thorough': '7 calls; compaction histories maxsize=1 N=13 and maxsize=2 N=24 (calls 3..21 assumed to alternate between the first two arguments)'},
+    bounds={'quick': '5 calls, symbolic maxsize >= 1, four policies x 2 modules x with/without dict archive; LRU compaction histories maxsize=1, 13 calls (calls 2..11 assumed to repeat call 1) and maxsize=2, 24 calls (calls 3..21 assumed to alternate between the first two arguments); fixed maxsize=2 at 7 calls with an archive (evict-then-reload); failing calls at 4 calls',
+            'thorough': '7 calls; compaction histories also with an archive; fixed maxsize=2 at 9 calls and maxsize=3 at 8 calls; failing calls at 5 calls'},
     outside='maxsize >= 30 (LFU evicting more than 2 entries needs > 30 resident entries); histories after a bulk load() (bookkeeping knows nothing of preloaded entries; that case belongs to C05)',
     stubs=HIST_STUBS, assumptions=HIST_ASSUME, expect_labels=['C06:lru', 'C06:mru', 'C06:lfu', 'C06:rr', 'C06:hit-keeps'])
 reg('C07', 'harness.hist', design_ref='6/C07',
-    bounds={'quick': '5 calls, no_cache + four bounded policies, purge on/off, both modules, cache + dict_archive',
+    bounds={'quick': '5 calls, no_cache + four bounded policies, purge on/off, both modules, cache + dict_archive; 3 steps with the management alphabet; scripts refill/reload; results None/0 and failing calls; file/dir/sqlite-file archives at 3 calls read back through a NEW handle / NEW sqlite connection (what another process sees), with results the archive cannot encode (uninterpreted predicate)',
             'thorough': '7 calls; plus non-flat stringmap keys at 5 calls'},
-    outside='file/dir/sql backends with symbolic keys (their dict refinement is C03)', stubs=HIST_STUBS,
+    outside='file/dir/sql backends with symbolic keys (their dict refinement is C03); what a cache does AFTER an archive refused an unencodable value (the history ends at the first refused write: observed, not claimed - no_cache then keeps the entry in memory, fails every later dump and may drop unarchived entries on a hit)', stubs=HIST_STUBS,
     assumptions=HIST_ASSUME, expect_labels=['C07:leaver-archived', 'C07:archive-monotone'])
 reg('C15', 'harness.hist', design_ref='6/C15',
     bounds={'quick': 'as C01 quick', 'thorough': 'as C01 thorough'}, outside='longer histories',
@@ -56,23 +56,23 @@ KEY_ASSUME = ['argument values and default objects are opaque atoms (arbitrary h
               'serialising keymaps run over the structural str/repr/digest/pickle stubs: no digest collisions, pickle injective and order-preserving']
 KEY_STUBS = ['klepto.crypto str/repr/hashlib/dumps/__hash -> structural injective versions (stubs/cryptoshim.py)']
 reg('C09', 'harness.keys', design_ref='6/C09',
-    bounds={'quick': '24 shapes x 7 keymaps (+ klepto.keygen): call A in every spelling (positional count, omitted defaults, keyword order, 0-2 extra positionals, 0-2 extra keywords) vs canonical call B',
+    bounds={'quick': '24 shapes x 7 keymaps (+ klepto.keygen): call A in every spelling (positional count, omitted defaults, keyword order, 0-2 extra positionals, 0-2 extra keywords) vs canonical call B; a sibling function of the same code object with other defaults is used first; methods (instance as first argument); 19 parameter names that coincide with klepto-internal parameter names (self, func, ignored, key, ...)',
             'thorough': 'all 336 shapes x 11 keymaps'},
-    outside='more than 3 positional / 2 keyword-only parameters, more than 2 extras; bound methods and partials; concrete fast-type argument values',
+    outside='more than 3 positional / 2 keyword-only parameters, more than 2 extras; functools.partial objects; concrete fast-type argument values other than the listed witnesses',
     stubs=KEY_STUBS, assumptions=KEY_ASSUME, expect_labels=['C09:canonical'])
 reg('C10', 'harness.keys', design_ref='6/C10',
-    bounds={'quick': 'as C09 quick, information-preserving configurations only (flat keys without sentinel are skipped for shapes with *args, as the statement says)', 'thorough': 'as C09 thorough'},
+    bounds={'quick': 'as C09 quick, information-preserving configurations only (flat keys without sentinel are skipped for shapes with *args, as the statement says); extra positionals that are strings equal to keyword names (p, q, a) under sentinel / non-flat keymaps', 'thorough': 'as C09 thorough'},
     outside='as C09; typed=True separation of 1/1.0/True is checked on concrete witnesses by harness.typed',
     stubs=KEY_STUBS, assumptions=KEY_ASSUME, expect_labels=['C10:distinct'])
 reg('C11', 'harness.keys', design_ref='6/C11',
-    bounds={'quick': '24 shapes x ignore specifications of <= 3 elements drawn from parameter names, indices, \'*\', \'**\' (a selection) x {raw, str} keymaps + klepto.keygen',
+    bounds={'quick': '24 shapes x ignore specifications of <= 3 elements drawn from parameter names, indices, \'*\', \'**\' (a selection) x {raw, str} keymaps + klepto.keygen; single-element specifications also given bare (ignore=0, ignore=\'a\'); methods with self ignored by name, alone and with names, * and **',
             'thorough': 'all shapes x all specifications of <= 3 elements x 4 keymaps'},
-    outside='presence/absence of an extra argument that is ignored by index or by name (not specified by the statement: neither direction demanded); instance removal for methods',
+    outside='presence/absence of an extra argument that is ignored by index or by name (not specified by the statement: neither direction demanded); index specifications on methods whose self is ignored (klepto renumbers after removing self: not specified)',
     stubs=KEY_STUBS, assumptions=KEY_ASSUME, expect_labels=['C11:merges', 'C11:discriminates'])
 reg('C17', 'harness.keys', design_ref='6/C17',
-    bounds={'quick': '24 shapes x ignore specifications (<= 3 elements) x 5 keymaps: the key of one call computed under two independent symbolic iteration orders of every set built in klepto._inspect/klepto.keymaps',
+    bounds={'quick': '24 shapes x ignore specifications (<= 3 elements) x 5 keymaps: the key of one call computed under two independent symbolic iteration orders of every set built in klepto._inspect/klepto.keymaps; session scenario: session 1 has first computed the key of a call that differs only in the type of an equal argument (1 / 1.0 / True), session 2 is fresh (every mutable module-level container of klepto reset, python hash() values differ): key and dir_archive entry name must agree; entry name of 11 concrete key witnesses (path separators, blanks, pickled bytes, ints, tuples) in two sessions',
             'thorough': 'all shapes x all specifications x 8 keymaps'},
-    outside='that archived results are then found by a later OS process (C04, excluded there); process state other than set iteration order and keyword order',
+    outside='that archived results are then found by a later OS process (C04, excluded there); process state kept anywhere else than in set iteration order, python hash() values, keyword order and mutable module-level containers / lru_cache wrappers of the klepto modules (e.g. closure cells)',
     stubs=KEY_STUBS + ['name `set` in klepto._inspect / klepto.keymaps -> set subclass with symbolic iteration order (set displays would bypass it; none occur in the anchored code)'],
     assumptions=KEY_ASSUME, expect_labels=['C17:stable'])
 reg('C12', 'harness.rounding', design_ref='6/C12',
@@ -97,7 +97,7 @@ reg('C03', 'harness.arch', design_ref='6/C03',
                             'distinct dir keys are assumed to have distinct file names except in the alias scenario (which checks exactly that on witnesses)'],
     expect_labels=['C03:contents', 'C03:result', 'C03:exception', 'C03:isolation', 'C03:copy-equal', 'C03:equality'])
 reg('C04', 'harness.arch', design_ref='6/C04',
-    bounds={'quick': 'file(pickle/json), dir(pickle/json/fast), sqltable(db file): symbolic history of 3 writes (file archives, symbolic keys) or 2 writes (dir/sql archives, 4-key universe) from {set, set of a mutable container that is mutated afterwards, delete, update}, then a reader obtained by constructor / reported state / copy() / dill round-trip / a handle opened before the writes',
+    bounds={'quick': 'file(pickle/json), dir(pickle/json/fast), sqltable(db file): symbolic history of 3 writes (file archives, symbolic keys) or 2 writes (dir/sql archives, 4-key universe) from {set, set of a mutable container that is mutated at once (and whose read-back copy is mutated) or after all writes, delete, update}, then the same handle and a reader obtained by constructor / reported state / copy() / dill round-trip / a handle opened before the writes',
             'thorough': 'histories of 4 (file) / 3 (dir, sql) writes'},
     outside='another OS process and the time after the writer exited (only the model file system / db file survives between handles here); fidelity of the real serializers on arbitrary values; serialized=False import caching; pickling of sqlite-backed archives',
     stubs=[], assumptions=['as C03'], expect_labels=['C04:fresh-handle', 'C04:same-store', 'C04:settings'])
@@ -105,18 +105,18 @@ for _p in ('C03', 'C04'):
     REGISTRY[_p]['stubs'] = _arch_stubs()
 TWIN_ASSUME = HIST_ASSUME + ['the two twins are built by the same constructor calls; RR draws are coupled (the twin re-uses the symbolic draw of the same step)']
 reg('C16', 'harness.twin', design_ref='6/C16',
-    bounds={'quick': 'histories of 4 calls (RR: 3) in which a symbolic subset of calls raises; 12 decorators x {no archive, cache+dict_archive} x purge; safe decorators: 8 hostile argument witnesses (list, dict, set, objects whose __hash__/__repr__/__reduce_ex__ raise, nested) x 8 keymaps x with/without archive, two calls each',
+    bounds={'quick': 'histories of 4 calls (RR: 3) in which a symbolic subset of calls raises an exception of a symbolic class among {user-defined, TypeError, KeyError, AttributeError}; 12 decorators x {no archive, cache+dict_archive} x purge; safe decorators: 8 hostile argument witnesses (list, dict, set, objects whose __hash__/__repr__/__reduce_ex__ raise, nested) x 8 keymaps x with/without archive, two calls each',
             'thorough': 'histories of 5 calls (RR: 4)'},
     outside='longer histories; exceptions raised by the keymap or archive themselves on the standard decorators',
     stubs=HIST_STUBS + ['klepto.crypto stubs as C01'], assumptions=TWIN_ASSUME,
     expect_labels=['C16:same-exception', 'C16:single-evaluation', 'C16:no-trace', 'C16:as-if-not-made', 'C16:safe-result'])
 reg('C18', 'harness.twin', design_ref='6/C18',
-    bounds={'quick': 'histories of 3 calls; before each call side A may receive key() or key()+lookup() on any argument seen so far; 12 decorators x {no archive, cache+dict_archive}; one configuration per decorator with tol set',
+    bounds={'quick': 'histories of 3 calls; before each call side A may receive key() or key()+lookup() on any argument seen so far; 12 decorators x {no archive, cache+dict_archive}; one configuration per decorator with tol set; concrete float/nested-tuple witnesses with tol=2, deep on/off at 2 calls; everything a call newly stores (memory or archive) must be stored under key(args)',
             'thorough': 'histories of 4 calls; keymaps raw/str/pyhash'},
     outside='longer histories; ignore specifications (the key path itself is C09-C11)', stubs=HIST_STUBS + ['klepto.crypto stubs as C01'],
     assumptions=TWIN_ASSUME, expect_labels=['C18:lookup', 'C18:no-eval', 'C18:no-change', 'C18:as-if-not-probed', 'C18:wrapped', 'C18:key-stored'])
 reg('C20', 'harness.twin', design_ref='6/C20',
-    bounds={'quick': 'prefix of 2 calls, real dill round trip of the decorated function, one call on the original only, continuation of 2 calls on clone and reference twin; 12 decorators x {no archive, cache+dict_archive, cache+null_archive}',
+    bounds={'quick': 'prefix of 2 calls, real dill round trip of the decorated function, one call on the original only, continuation of 2 calls on clone and reference twin; 12 decorators x {no archive, cache+dict_archive, cache+null_archive}; composed keymaps (stringmap+hashmap) and sentinel keymaps on cache+dict_archive',
             'thorough': 'prefixes of 1-3 calls, continuations of 3 calls'},
     outside='persistent (file/dir/sql) archives staying shared after the round trip; keymaps other than the default/raw ones',
     stubs=HIST_STUBS + ['proxies survive real dill through __reduce__ + an in-process registry (the clone holds the same symbolic variables)'],
@@ -129,14 +129,14 @@ reg('C19', 'harness.validate', design_ref='6/C19',
                             'every input is a finite structural choice, so one path is close to one concrete call form; the solver contributes the closure certificate and the counterexample'],
     expect_labels=['C19:agree', 'C19:validate', 'C19:never-called'])
 reg('C13', 'harness.crash', design_ref='6/C13',
-    bounds={'quick': 'file(pickle/json), dir(pickle/json/fast), sqltable(db file) archives with 2 prior entries; one operation from {set new key, overwrite, setdefault, update of 2 keys, del, pop, clear, cache.dump of 2 entries, re-open, re-open with a seeding dict}; the crash index is a symbolic Int over every mutating system call of the operation (create/truncate, each write chunk, close, mkdir, rename, unlink, rmdir); then a fresh handle runs len/keys/items/getitem/cache.load',
+    bounds={'quick': 'file(pickle/json), dir(pickle/json/fast), sqltable(db file) archives with 2 prior entries; one operation from {set new key, overwrite, setdefault, update of 2 keys, del, pop, clear, cache.dump of 2 entries, re-open, re-open with a seeding dict}; written data reaches the file at write() or only at flush/close (symbolic choice: large vs small data); the crash index is a symbolic Int over every mutating system call of the operation (create/truncate, each write chunk, close, mkdir, rename, unlink, rmdir); then a fresh handle runs len/keys/items/getitem/cache.load',
             'thorough': 'prior store of 0, 1 or 2 entries (symbolic)'},
     outside='power loss / un-synced data (kill -9 semantics: completed system calls persist); crashes inside a sqlite call (journal recovery is sqlite C code) - sqlite crash points are between the real execute/commit calls; serialized=False, compression/memmap internals, HDF; more than one operation per run',
     stubs=[], assumptions=['values are atoms; keys are the concrete a, b, c', 'multi-chunk writes: the serializer stub issues a header and a body chunk so that a prefix can be on disk'],
     expect_labels=['C13:old-or-new', 'C13:untouched', 'C13:len', 'C13:load'])
 REGISTRY['C13']['stubs'] = _arch_stubs() + ['crash = freeze of the model at a symbolic system-call index (BaseException at every later syscall of the dying writer)']
 reg('C14', 'harness.conc', design_ref='6/C14',
-    bounds={'quick': 'dir and file archives (pickle) with 2 prior entries; 19 (dir) + 12 (file) pairs of operations {writer of a new key / overwrite / delete} x {second writer on a distinct key, getitem, contains, len, iter, __asdict__, cache.load(), opener} and 2 triples (two writers + reader); every schedule with at most 2 pre-emptions at system-call granularity (which process starts, where it is pre-empted, who continues) - symbolic choices, exploration closed',
+    bounds={'quick': 'dir and file archives (pickle) with 2 prior entries; 19 (dir) + 12 (file) pairs of operations {writer of a new key / overwrite / delete} x {second writer on a distinct key, getitem, contains, len, iter, __asdict__, cache.load(), opener} and 2 triples (two writers + reader); opener with the default in-memory cache in front (cached=True) on an empty and on a filled archive; writers whose data stays in the userspace buffer until close (symbolic choice); every schedule with at most 2 pre-emptions at system-call granularity (which process starts, where it is pre-empted, who continues) - symbolic choices, exploration closed',
             'thorough': 'at most 3 pre-emptions for pairs, 2 for triples; json variants'},
     outside='SQL-table archive (sqlite inter-process locking is C/OS level: not applicable); schedules with more pre-emptions than the bound; more than 3 processes; threads sharing one handle',
     stubs=[], assumptions=['processes = threads with strict hand-over at every model system call; each has its own archive handle opened beforehand', 'values are atoms, keys concrete'],
